@@ -126,6 +126,10 @@ class CollectionStore(object):
         with self._rwlock.writer():
             del self._documents[key]
 
+    def discard(self, key):
+        with self._rwlock.writer():
+            self._documents.pop(key, None)
+
     def __len__(self):
         self._remove_expired_documents()
         with self._rwlock.reader():
